@@ -471,6 +471,11 @@ class Check:
         os.makedirs(os.path.join(ROOT, "evidence"), exist_ok=True)
         with open(os.path.join(ROOT, "evidence", self.prop + ".json"), "w") as f:
             json.dump(ev, f, indent=1, default=str)
+        if self.tier == "thorough":
+            # the last thorough run is also kept next to the (quick or thorough) latest one
+            os.makedirs(os.path.join(ROOT, "evidence", "thorough"), exist_ok=True)
+            with open(os.path.join(ROOT, "evidence", "thorough", self.prop + ".json"), "w") as f:
+                json.dump(ev, f, indent=1, default=str)
         log(f"[{self.prop}] tier={self.tier} evaluations={self.evaluations} "
             f"nontrivial={len(self.nontrivial)} states={self.states} violations={len(seen)} "
             f"known={sum(v[1] for v in self.known.values())} wall={wall:.1f}s")
